@@ -62,6 +62,9 @@ class CryptoEnv:
         self.sha = UF("sha256")
         self.enc = []  # (key, iv, pt, ct)
         self.dec_calls = 0
+        self.rsa = []  # (modulus id, pt, ct)
+        self.rsa_dec_calls = 0
+        self.rsa_other = lambda ct, sentinel: sentinel
         self.assume_hmac_collision_free = False
 
     def aes_encrypt(self, key, iv, pt):
@@ -172,3 +175,78 @@ def new_env(**kw):
     global ENV
     ENV = CryptoEnv(**kw)
     return ENV
+
+
+# ----------------------------------------------------------------------------------------------------------------------
+# RSA PKCS#1 v1.5 (contract only)
+# ----------------------------------------------------------------------------------------------------------------------
+
+
+class FakeRSAKey:
+    """stands for an RSA key of k bytes; public and private halves share `n`"""
+
+    __symx_model__ = True
+
+    def __init__(self, k=128, n=0xC0FFEE, private=True):
+        self.k = k
+        self.n = n
+        self.private = private
+
+    def size_in_bytes(self):
+        return self.k
+
+    def size_in_bits(self):
+        return self.k * 8
+
+    def has_private(self):
+        return self.private
+
+    def public_key(self):
+        return FakeRSAKey(self.k, self.n, False)
+
+
+class PKCS1Shim:
+    """PKCS1_v1_5.new(key).encrypt/decrypt contract:
+    encrypt(pt): ValueError if len(pt) > k-11, else a fresh ciphertext of k bytes;
+    decrypt(ct, sentinel): ValueError if len(ct) != k; the plaintext for a ciphertext produced by encrypt under the
+    same modulus; for ANY other blob either the sentinel or an arbitrary byte string of length 0..k-11 — the harness
+    chooses which through ENV.rsa_other (this is what pycryptodome 3.23 does: it returns b'' for garbage, measured)."""
+
+    __symx_model__ = True
+
+    class _Cipher:
+        __symx_model__ = True
+
+        def __init__(self, key):
+            self.key = key
+
+        def encrypt(self, pt):
+            n = len(seq_cells(pt, SymBytes))
+            if n > self.key.k - 11:
+                raise ValueError("Plaintext is too long.")
+            ct = sym_bytes(Ctx.cur.fresh("rsa_ct"), self.key.k)
+            ENV.rsa.append((self.key.n, pt, ct))
+            return ct
+
+        def decrypt(self, ct, sentinel, expected_pt_len=0):
+            cells = seq_cells(ct, SymBytes)
+            if cells is None or len(cells) != self.key.k:
+                raise ValueError("Ciphertext with incorrect length (not %d bytes)" % self.key.k)
+            ENV.rsa_dec_calls += 1
+            for n2, pt2, ct2 in ENV.rsa:
+                if n2 == self.key.n and truth(SymBytes(cells).eq(ct2)):
+                    return pt2
+            return ENV.rsa_other(ct, sentinel)
+
+    @staticmethod
+    def new(key, randfunc=None):
+        return PKCS1Shim._Cipher(key)
+
+
+PKCS1Shim.new.__symx_model__ = True
+
+
+def install_rsa():
+    from .interp import DEFAULT_OVERRIDES
+
+    DEFAULT_OVERRIDES.update(PKCS1_v1_5=PKCS1Shim)
